@@ -80,7 +80,7 @@ example : toSigned 2 (leNat (leBytes 2 (twos 2 (-2)))) = -2 := by decide
 example : leNat [0xfe, 0xff] = 65534 ∧ toSigned 2 65534 = -2 := by decide
 
 /-- the model's scalar view on exactly these bytes: signed integers (sizes of `parse_scalar`'s table) -/
-theorem C06_scalar_model_signed (sz : Nat) (k : String) (name : Option String) (a : Option Nat) (i : Int)
+theorem C06_scalar_model_signed (sz : Nat) (k : IK) (name : Option String) (a : Option Nat) (i : Int)
     (hk : intKind true sz name = some k) (hsz : 0 < sz)
     (lo : -((2 ^ (8 * sz - 1) : Nat) : Int) ≤ i) (hi : i < ((2 ^ (8 * sz - 1) : Nat) : Int)) :
     scalarValue name (some sz) (some 5) (some ⟨leBytes sz (twos sz i), a⟩) = some (.num k i) := by
@@ -88,7 +88,7 @@ theorem C06_scalar_model_signed (sz : Nat) (k : String) (name : Option String) (
   simp [scalarValue, hk, hz, leBytes_length, take_leBytes, C06_scalar_signed sz hsz i lo hi]
 
 /-- … and unsigned integers -/
-theorem C06_scalar_model_unsigned (sz : Nat) (k : String) (name : Option String) (a : Option Nat) (n : Nat)
+theorem C06_scalar_model_unsigned (sz : Nat) (k : IK) (name : Option String) (a : Option Nat) (n : Nat)
     (hk : intKind false sz name = some k) (hsz : 0 < sz) (h : n < 256 ^ sz) :
     scalarValue name (some sz) (some 7) (some ⟨leBytes sz n, a⟩) = some (.num k n) := by
   have hz : sz ≠ 0 := by omega
@@ -295,5 +295,165 @@ theorem C06_hashbrown_bucket_location (ctrlAddr size i : Nat) (h : (i + 1) * siz
     ctrlAddr - (i + 1) * size + size = ctrlAddr - i * size := by
   have : (i + 1) * size = i * size + size := by rw [Nat.add_mul]; simp
   omega
+
+/-! ## Enums: which variant is shown -/
+
+/-- FULL: the key under which the type parser files a variant equals the (unsigned) discriminant number the decoder reads
+    from memory — for every constant width and every value.  FALSE of the unchanged code. -/
+def C06_enum_discr_key_full : Prop := ∀ w t : Nat, 0 < w → t < 256 ^ w → discrKey w t = (t : Int)
+
+/-- named hypothesis: the top bit of the constant is clear -/
+def TopBitClear (w t : Nat) : Prop := t < 2 ^ (8 * w - 1)
+instance (w t : Nat) : Decidable (TopBitClear w t) := by unfold TopBitClear; exact inferInstance
+
+theorem C06_enum_discr_key_partial (w t : Nat) (h : TopBitClear w t) : discrKey w t = (t : Int) := by
+  unfold TopBitClear at h
+  simp [discrKey, toSigned, h]
+
+/-- `#[repr(u8)] enum E { A(u16) = 3, B = 255 }`: B is filed under -1, memory holds 255 -/
+theorem C06_enum_discr_key_counterexample : ¬ C06_enum_discr_key_full := by
+  intro h
+  have := h 1 255 (by decide) (by decide)
+  revert this
+  decide
+
+/-- FULL: every integer discriminant the decoder can read selects by its numeric value.  FALSE: 128-bit discriminants. -/
+def C06_enum_select_full : Prop :=
+  ∀ (k : IK) (v : Int), -(2 ^ 63 : Int) ≤ v → v < 2 ^ 63 → (Scalar.num k v).asNumber = some v
+
+def NotWide (k : IK) : Prop := k ≠ .i128 ∧ k ≠ .u128
+instance (k : IK) : Decidable (NotWide k) := by unfold NotWide; exact inferInstance
+
+theorem wrapI64_id (v : Int) (lo : -(2 ^ 63 : Int) ≤ v) (hi : v < 2 ^ 63) : wrapI64 v = v := by
+  unfold wrapI64 toSigned
+  have e64 : ((2 ^ 64 : Nat) : Int) = 18446744073709551616 := by decide
+  have e63 : (2 : Int) ^ 63 = 9223372036854775808 := by decide
+  rw [e64]
+  rw [e63] at lo hi
+  by_cases hneg : 0 ≤ v
+  · have : v % 18446744073709551616 = v := Int.emod_eq_of_lt hneg (by omega)
+    rw [this]; split <;> omega
+  · have h1 : v % 18446744073709551616 = (v + 18446744073709551616) % 18446744073709551616 := by
+      rw [Int.add_emod_right]
+    have h2 : (v + 18446744073709551616) % 18446744073709551616 = v + 18446744073709551616 :=
+      Int.emod_eq_of_lt (by omega) (by omega)
+    rw [h1, h2]; split <;> omega
+
+/-- **C06_enum_select_partial**: every discriminant of at most 64 bits selects by its numeric value -/
+theorem C06_enum_select_partial (k : IK) (v : Int) (lo : -(2 ^ 63 : Int) ≤ v) (hi : v < 2 ^ 63) (h : NotWide k) :
+    (Scalar.num k v).asNumber = some v := by
+  unfold NotWide at h
+  simp [Scalar.asNumber, h.1, h.2, wrapI64_id v lo hi]
+
+/-- `Option<u128>`: the tag is a u128, `try_as_number` refuses it, no variant is shown -/
+theorem C06_enum_select_counterexample : ¬ C06_enum_select_full := by
+  intro h
+  have := h .u128 1 (by decide) (by decide)
+  revert this
+  decide
+
+/-- the variant the decoder shows for discriminant number `v`: the one keyed `v`, else the default one -/
+def selectVariant (enums : List (Option Int × Member)) (v : Int) : Option Member :=
+  match enums.find? (·.1 == some v) with
+  | some e => some e.2
+  | none => (enums.find? (·.1 == none)).map (·.2)
+
+/-- **C06_enum_no_foreign_variant**: whatever the table, the variant shown for number `v` is keyed `v` or is the default
+    (niche) variant — never a variant keyed with a different number -/
+theorem C06_enum_no_foreign_variant (enums : List (Option Int × Member)) (v : Int) (m : Member)
+    (h : selectVariant enums v = some m) : ∃ e ∈ enums, e.2 = m ∧ (e.1 = some v ∨ e.1 = none) := by
+  unfold selectVariant at h
+  split at h
+  · next e he =>
+    have hm := List.mem_of_find?_eq_some he
+    have hp := List.find?_some he
+    refine ⟨e, hm, by simpa using h, Or.inl ?_⟩
+    simpa using hp
+  · next he =>
+    rw [Option.map_eq_some_iff] at h
+    obtain ⟨e, hd, hm2⟩ := h
+    have hm := List.mem_of_find?_eq_some hd
+    have hp := List.find?_some hd
+    refine ⟨e, hm, hm2, Or.inr ?_⟩
+    simpa using hp
+
+/-- a keyed variant wins over the default one (explicit tag present ⇒ that variant) -/
+theorem C06_enum_keyed_variant_shown (enums : List (Option Int × Member)) (v : Int) (e : Option Int × Member)
+    (h : enums.find? (·.1 == some v) = some e) : selectVariant enums v = some e.2 := by
+  simp [selectVariant, h]
+
+/-! ## Structures and arrays: every member / element is decoded from exactly its own bytes -/
+
+@[simp] theorem sliceBytes_exact (pre img post : Bytes) :
+    sliceBytes (pre ++ (img ++ post)) pre.length img.length = some img := by
+  unfold sliceBytes
+  have : pre.length + img.length ≤ (pre ++ (img ++ post)).length := by simp <;> omega
+  simp only [this, if_true]
+  rw [List.drop_left, List.take_left]
+
+/-- **C06_struct_member_exact**: for every type graph, every structure layout and every member at a constant offset, the
+    bytes handed to the member's decoder are exactly the member's image inside the parent's image (and its address is
+    the parent's address plus the offset) — whatever surrounds it. -/
+theorem C06_struct_member_exact (c : Ctx) (m : Member) (ty : Nat) (pre img post : Bytes) (a : Option Nat)
+    (hty : m.ty = some ty) (hloc : m.loc = some (some (pre.length : Int))) (hsz : c.size ty = some img.length) :
+    memberData c m ⟨pre ++ (img ++ post), a⟩ = some ⟨img, a.map (· + pre.length)⟩ := by
+  have hnn : ¬ ((pre.length : Int) < 0) := by omega
+  simp [memberData, hty, hloc, hsz, hnn, sliceBytes_exact]
+
+/-- … and so the member shown is the decoder's result on exactly those bytes, under the member's own name -/
+theorem C06_struct_member_value (c : Ctx) (rec : Rec) (m : Member) (ty : Nat) (pre img post : Bytes) (a : Option Nat)
+    (hty : m.ty = some ty) (hloc : m.loc = some (some (pre.length : Int))) (hsz : c.size ty = some img.length) :
+    parseMember c rec m (some ⟨pre ++ (img ++ post), a⟩) =
+      (rec (some ⟨img, a.map (· + pre.length)⟩) ty).map fun v => (m.name, v) := by
+  simp [parseMember, hty, C06_struct_member_exact c m ty pre img post a hty hloc hsz]
+
+theorem parseItems_getElem (rec : Rec) (el elSize : Nat) (base : Option Nat) (f : Option Data → Val)
+    (hrec : ∀ d, rec d el = some (f d)) (blocks : List Bytes) (i : Nat) :
+    (parseItems rec el elSize base i blocks).length = blocks.length ∧
+    ∀ j (hj : j < blocks.length), (parseItems rec el elSize base i blocks)[j]? =
+      some (f (some ⟨blocks[j], base.map (· + (i + j) * elSize)⟩)) := by
+  induction blocks generalizing i with
+  | nil => simp [parseItems]
+  | cons b rest ih =>
+    simp only [parseItems, hrec]
+    refine ⟨by simp [(ih (i + 1)).1], ?_⟩
+    intro j hj
+    cases j with
+    | zero => simp
+    | succ j =>
+      have hj' : j < rest.length := by simpa using hj
+      simp only [List.getElem?_cons_succ, List.getElem_cons_succ]
+      rw [(ih (i + 1)).2 j hj']
+      have : i + 1 + j = i + (j + 1) := by omega
+      rw [this]
+
+/-- **C06_array_elements_exact**: a buffer that is the concatenation of `n` element images is shown as exactly `n` items,
+    item `j` being the element decoder's result on exactly the j-th image at address `base + j * el` — in order, none
+    missing, none duplicated, for every element size and every `n` (arrays, `Vec`, slices share this path). -/
+theorem C06_array_elements_exact (rec : Rec) (el : Nat) (base : Option Nat) (f : Option Data → Val)
+    (hrec : ∀ d, rec d el = some (f d)) (elSize : Nat) (blocks : List Bytes) (h : ∀ b ∈ blocks, b.length = elSize) :
+    let items := parseItems rec el elSize base 0 (chunks elSize blocks.length blocks.flatten)
+    items.length = blocks.length ∧
+    ∀ j (hj : j < blocks.length), items[j]? = some (f (some ⟨blocks[j], base.map (· + (0 + j) * elSize)⟩)) := by
+  rw [C06_vec elSize blocks h]
+  exact parseItems_getElem rec el elSize base f hrec blocks 0
+
+/-! ## Collections show exactly their elements -/
+
+/-- **C06_collections_exact (VecDeque)**: the slots shown are pairwise distinct and as many as the length:
+    no element missing, none shown twice -/
+theorem C06_collections_exact_deque (cap head len : Nat) (hc : 0 < cap) (hl : len ≤ cap) (hg : CapWithinGuard cap) :
+    (dequeIdx cap head len).length = len ∧ (dequeIdx cap head len).Nodup := by
+  rw [C06_vecdeque_ring_partial cap head len hc hl hg]
+  refine ⟨by simp, ?_⟩
+  rw [List.Nodup, List.pairwise_iff_getElem]
+  intro i j hi hj hij
+  have hj' : j < len := by simpa using hj
+  have hi' : i < len := by omega
+  simp only [List.getElem_map, List.getElem_range]
+  intro heq
+  rw [ring_mod cap head i (by omega), ring_mod cap head j (by omega)] at heq
+  have := Nat.mod_lt head hc
+  split at heq <;> split at heq <;> omega
 
 end BsVerif.Value
